@@ -3,11 +3,13 @@ from __future__ import annotations
 
 import collections
 import copy
+import dataclasses
 import gc
 import time
 import warnings
 import weakref
 from dataclasses import dataclass
+from typing import ClassVar
 
 from . import core, graphwalk, tlc, vclock
 
@@ -438,6 +440,56 @@ def identity_cases():
             falsy.append({"variant": label, "dead": good})
     vclock.run(fmain, backend="asyncio", seed=0)
     cases.append({"id": "falsy", "kind": "weak", "rows": falsy})
+
+    # owners with value semantics (__eq__/__hash__ by value, as a frozen dataclass has): two different instances that compare equal
+    # are still two instances - own bound signals, no delivery from one to the other's listeners, the event stamped with the
+    # dispatching instance, and the bound signal of the survivor unchanged after the other one has been collected
+    equal = []
+
+    class Valued:
+        changed = Signal(EvA_)
+
+        def __init__(self, k):
+            self.k = k
+
+        def __eq__(self, other):
+            return isinstance(other, Valued) and other.k == self.k
+
+        def __hash__(self):
+            return hash(self.k)
+
+    @dataclasses.dataclass(frozen=True)
+    class Point:
+        x: int
+        moved: ClassVar[Signal] = Signal(EvA_)
+
+    async def emain():
+        for label, make, attr in (("eq-hash", lambda: Valued(1), "changed"), ("frozen-dataclass", lambda: Point(1), "moved")):
+            for order in ("a-first", "b-first"):
+                try:
+                    a, b = make(), make()
+                    first, second = (a, b) if order == "a-first" else (b, a)
+                    sa_first = getattr(first, attr)
+                    sb_first = getattr(second, attr)
+                    sa, sb = getattr(a, attr), getattr(b, attr)
+                    good = a == b and a is not b and sa is not sb and sa_first is getattr(first, attr) and sb_first is getattr(second, attr)
+                    got_a, got_b = [], []
+                    ev = EvA_(9)
+                    async with sa.stream_events() as st_a, sb.stream_events() as st_b:
+                        sb.dispatch(ev)
+                        with anyio.move_on_after(1):
+                            got_b.append((await st_b.__anext__()).n)
+                        with anyio.move_on_after(1):
+                            got_a.append((await st_a.__anext__()).n)
+                    good = good and got_b == [9] and got_a == [] and ev.source is b
+                    del a, first, second, sa, sa_first, st_a
+                    gc.collect()
+                    good = good and getattr(b, attr) is sb
+                except Exception:  # noqa: BLE001
+                    good = False
+                equal.append({"variant": label + ":" + order, "dead": good})
+    vclock.run(emain, backend="asyncio", seed=0)
+    cases.append({"id": "equal", "kind": "weak", "rows": equal})
 
     # the signal of a Context (resource_added) and a signal declared by a Context subclass: the same bound signal before the context
     # is entered, while it is open and after it has been closed; a listener that subscribed through the object obtained earlier
